@@ -1,4 +1,5 @@
 import collections
+import itertools
 import typing as tp
 
 from cirbo.core.circuit import (
@@ -156,20 +157,21 @@ def _process_nor(cnf: CnfRaw, top_lit: Lit, lits: list[Lit]):
     cnf.append(common)
 
 
+def _process_parity(cnf: CnfRaw, top_lit: Lit, lits: list[Lit], negate: bool):
+    # one clause per operand assignment, forcing top_lit to the (negated) parity
+    for signs in itertools.product((True, False), repeat=len(lits)):
+        value = (sum(signs) % 2 == 1) != negate
+        clause = [-lit if sign else lit for lit, sign in zip(lits, signs)]
+        clause.append(top_lit if value else -top_lit)
+        cnf.append(clause)
+
+
 def _process_xor(cnf: CnfRaw, top_lit: Lit, lits: list[Lit]):
-    a, b, c = lits[0], lits[1], top_lit
-    cnf.append([-a, -b, -c])
-    cnf.append([-a, b, c])
-    cnf.append([a, -b, c])
-    cnf.append([a, b, -c])
+    _process_parity(cnf, top_lit, lits, negate=False)
 
 
 def _process_nxor(cnf: CnfRaw, top_lit: Lit, lits: list[Lit]):
-    a, b, c = lits[0], lits[1], top_lit
-    cnf.append([-a, -b, c])
-    cnf.append([-a, b, -c])
-    cnf.append([a, -b, -c])
-    cnf.append([a, b, c])
+    _process_parity(cnf, top_lit, lits, negate=True)
 
 
 def _process_gt(cnf: CnfRaw, top_lit: Lit, lits: list[Lit]):
